@@ -67,6 +67,13 @@ type Upstream struct {
 	conns sync.Map
 	hs    atomic.Pointer[chan struct{}] // when set: the UDP ASSOCIATE reply is held until the channel is closed
 	held  atomic.Int64                  // handshakes currently held
+
+	script   atomic.Pointer[AssocScript]
+	authUser string
+	authPass string
+	accepted atomic.Int64
+	open     atomic.Int64
+	authOK   atomic.Int64
 }
 
 // HoldHandshakes makes the SOCKS5 upstream accept TCP connections and read the requests but hold
@@ -351,6 +358,31 @@ func (w *World) StartUpstream(proto string, keys SS2022Keys) (*Upstream, error) 
 // Associations returns (currently open, ever opened) SOCKS5 UDP associations.
 func (u *Upstream) Associations() (live, total int64) { return u.live.Load(), u.total.Load() }
 
+// AssocScript tells the SOCKS5 upstream how to treat the next UDP ASSOCIATE requests (failures that
+// happen after the control connection is up).
+type AssocScript struct {
+	// Mode: "" (succeed, bound address = the upstream's UDP socket) | "bound-domain" (succeed with the
+	// domain name BoundName as bound address) | "reply-failure" (REP=1 general failure) |
+	// "close-after-reply" (succeed, then the upstream closes the control connection at once)
+	Mode      string
+	BoundName string
+}
+
+// SetAssocScript installs the script (nil = normal behaviour).
+func (u *Upstream) SetAssocScript(sc *AssocScript) { u.script.Store(sc) }
+
+// RequireAuth makes the upstream insist on RFC 1929 username/password authentication with these credentials.
+func (u *Upstream) RequireAuth(user, pass string) { u.authUser, u.authPass = user, pass }
+
+// ControlConns reports the SOCKS5 control connections: accepted so far, and how many of those the
+// harness has not yet seen closed by the peer (EOF / reset) - the relay's side still holds them open.
+func (u *Upstream) ControlConns() (accepted, stillOpen int64) {
+	return u.accepted.Load(), u.open.Load()
+}
+
+// AuthOK reports how many control connections passed username/password authentication.
+func (u *Upstream) AuthOK() int64 { return u.authOK.Load() }
+
 func (u *Upstream) acceptLoop(w *World) {
 	for {
 		c, err := u.tcp.AcceptTCP()
@@ -358,28 +390,80 @@ func (u *Upstream) acceptLoop(w *World) {
 			return
 		}
 		u.conns.Store(c, struct{}{})
+		u.accepted.Add(1)
+		u.open.Add(1)
 		w.wg.Go(func() {
 			defer func() { c.Close(); u.conns.Delete(c) }()
-			u.handleAssoc(c)
+			weClosed := u.handleAssoc(c)
+			if weClosed {
+				u.open.Add(-1)
+				return
+			}
+			// wait for the peer to close its side; only then the connection counts as released
+			c.SetDeadline(time.Time{})
+			var b [64]byte
+			for {
+				if _, err := c.Read(b[:]); err != nil {
+					break
+				}
+			}
+			u.open.Add(-1)
 		})
 	}
 }
 
-// handleAssoc is a minimal RFC 1928 server for UDP ASSOCIATE without authentication.
-func (u *Upstream) handleAssoc(c *net.TCPConn) {
+// handleAssoc is a minimal RFC 1928 / RFC 1929 server for UDP ASSOCIATE. It returns true when the
+// upstream itself ends the conversation (protocol error or scripted close).
+func (u *Upstream) handleAssoc(c *net.TCPConn) (weClosed bool) {
 	c.SetDeadline(time.Now().Add(10 * time.Second))
-	var b [512]byte
+	var b [600]byte
 	if _, err := io.ReadFull(c, b[:2]); err != nil || b[0] != 5 {
-		return
+		return true
 	}
-	if _, err := io.ReadFull(c, b[:int(b[1])]); err != nil {
-		return
+	nm := int(b[1])
+	if _, err := io.ReadFull(c, b[:nm]); err != nil {
+		return true
 	}
-	if _, err := c.Write([]byte{5, 0}); err != nil {
-		return
+	if u.authUser != "" {
+		offered := false
+		for _, m := range b[:nm] {
+			if m == 2 {
+				offered = true
+			}
+		}
+		if !offered {
+			c.Write([]byte{5, 0xFF})
+			return true
+		}
+		if _, err := c.Write([]byte{5, 2}); err != nil {
+			return true
+		}
+		// RFC 1929: VER=1 ULEN UNAME PLEN PASSWD
+		if _, err := io.ReadFull(c, b[:2]); err != nil || b[0] != 1 {
+			return true
+		}
+		ul := int(b[1])
+		if _, err := io.ReadFull(c, b[:ul+1]); err != nil {
+			return true
+		}
+		user := string(b[:ul])
+		pl := int(b[ul])
+		if _, err := io.ReadFull(c, b[:pl]); err != nil {
+			return true
+		}
+		if user != u.authUser || string(b[:pl]) != u.authPass {
+			c.Write([]byte{1, 1})
+			return true
+		}
+		if _, err := c.Write([]byte{1, 0}); err != nil {
+			return true
+		}
+		u.authOK.Add(1)
+	} else if _, err := c.Write([]byte{5, 0}); err != nil {
+		return true
 	}
 	if _, err := io.ReadFull(c, b[:4]); err != nil || b[0] != 5 || b[1] != 3 {
-		return
+		return true
 	}
 	var alen int
 	switch b[3] {
@@ -389,14 +473,14 @@ func (u *Upstream) handleAssoc(c *net.TCPConn) {
 		alen = 16 + 2
 	case 3:
 		if _, err := io.ReadFull(c, b[:1]); err != nil {
-			return
+			return true
 		}
 		alen = int(b[0]) + 2
 	default:
-		return
+		return true
 	}
 	if _, err := io.ReadFull(c, b[:alen]); err != nil {
-		return
+		return true
 	}
 	if g := u.hs.Load(); g != nil {
 		u.held.Add(1)
@@ -408,17 +492,33 @@ func (u *Upstream) handleAssoc(c *net.TCPConn) {
 		u.held.Add(-1)
 		c.SetDeadline(time.Now().Add(10 * time.Second))
 	}
+	port := []byte{byte(u.Addr.Port() >> 8), byte(u.Addr.Port())}
 	ip := u.Addr.Addr().As4()
-	reply := append([]byte{5, 0, 0, 1}, ip[:]...)
-	reply = append(reply, byte(u.Addr.Port()>>8), byte(u.Addr.Port()))
+	reply := append(append([]byte{5, 0, 0, 1}, ip[:]...), port...)
+	sc := u.script.Load()
+	if sc != nil {
+		switch sc.Mode {
+		case "bound-domain":
+			reply = append(append([]byte{5, 0, 0, 3, byte(len(sc.BoundName))}, sc.BoundName...), port...)
+		case "reply-failure":
+			reply = append(append([]byte{5, 1, 0, 1}, 0, 0, 0, 0), 0, 0)
+		}
+	}
 	if _, err := c.Write(reply); err != nil {
-		return
+		return true
+	}
+	if sc != nil && sc.Mode == "close-after-reply" {
+		return true
+	}
+	if sc != nil && sc.Mode != "" {
+		return false // a failed association: now the peer has to close
 	}
 	u.live.Add(1)
 	u.total.Add(1)
 	defer u.live.Add(-1)
 	c.SetDeadline(time.Time{})
 	c.Read(b[:1]) // the association lives as long as the TCP connection
+	return false
 }
 
 func (u *Upstream) serve(w *World) {
